@@ -126,13 +126,17 @@ fn true_distance(topo: &str, round: usize) -> Option<u8> {
         "shrink-3-2" => Some(if round < 2 { 3 } else { 2 }),
         "L1" => Some(1),
         "L2" => Some(2),
-        "L3" | "ecmp" | "silent-mid" => Some(3),
+        "L3" | "L3-flaky" | "ecmp" | "silent-mid" => Some(3),
         "L4" => Some(4),
         _ => None,
     }
 }
 
-fn real_menu() -> Menu {
+fn real_menu(t: &Task) -> Menu {
+    if t.topo == "L3-flaky" {
+        // socket failures the cell survives: Failed and Skipped slots in real histories
+        return Menu { delay: true, loss: true, ..crate::c09::transient_faults(&t.cell) };
+    }
     Menu { delay: true, reorder: true, dup: true, loss: true, ..Menu::default() }
 }
 
@@ -191,7 +195,7 @@ fn replay_real(path: &str) -> i32 {
     let (t, choices) = c01::load_task(path);
     drive::SNAPSHOT_EACH_ROUND.with(|s| s.set(true));
     let topo = drive::topo_named(&t.cell, t.topo);
-    let mut net = drive::net_cfg(&t.cell, &t.params, topo, real_menu());
+    let mut net = drive::net_cfg(&t.cell, &t.params, topo, real_menu(&t));
     net.reroute = drive::reroute_named(&t.cell, t.topo);
     let o = drive::run_trace(&t.cell, &t.params, net, Chooser::new(&choices, 100_000));
     drive::SNAPSHOT_EACH_ROUND.with(|s| s.set(false));
@@ -307,7 +311,7 @@ pub fn run(args: &Args) -> i32 {
     // real executions: stable, ECMP, silent target; first_ttl 1..3
     let mut rtasks: Vec<Task> = vec![];
     for cell in drive::base_cells() {
-        for topo in ["L1", "L2", "L3", "L4", "ecmp", "silent-target", "silent-mid", "silent-all"] {
+        for topo in ["L1", "L2", "L3", "L4", "ecmp", "silent-target", "silent-mid", "silent-all", "L3-flaky"] {
             for first_ttl in [1u8, 2, 3] {
                 let p = TraceParams { first_ttl, rounds: 3, packet_size: if cell.v6 { 96 } else { 84 }, ..TraceParams::default() };
                 rtasks.push(Task { cell, topo, params: p, bound: if tier == Tier::Thorough { 3 } else { 2 } });
@@ -341,7 +345,7 @@ pub fn run(args: &Args) -> i32 {
         let stats = mc::explore(t.bound, 400, &mut |ch| {
             let c = std::mem::replace(ch, Chooser::new(&[], 0));
             let topo = drive::topo_named(&t.cell, t.topo);
-            let mut net = drive::net_cfg(&t.cell, &t.params, topo, real_menu());
+            let mut net = drive::net_cfg(&t.cell, &t.params, topo, real_menu(t));
             net.reroute = drive::reroute_named(&t.cell, t.topo);
             let o = drive::run_trace(&t.cell, &t.params, net, c);
             *ch = o.world.chooser.clone();
@@ -370,7 +374,7 @@ pub fn run(args: &Args) -> i32 {
     rep.set("synthetic_depth_completed", json!(depth));
     rep.set("real_executions", json!(rstats.executions));
     rep.set("real_rounds_checked", json!(rrounds));
-    rep.set("rule", json!(format!("synthetic: 14 round shapes (path lengths 1..4, answering/silent target, unknown hops, failed and re-issued probes; largest_ttl by the strategy's contract) x first_ttl {{1,2,5}}: ALL histories to depth {depth} on the real State, de-duplicated on (depth, getter results); after every round: hops() empty iff no path length, else consecutive ttl lowest-probed..=max path length with each probed hop carrying its ttl, target_hop/is_target/is_in_round at the latest round's length, no query panics (also on the empty state). real: 14 cells x 8 topologies x first_ttl {{1,2,3}} x 3 rounds + 14 cells x 4 topologies x (first_ttl,max_ttl) in {{(1,1),(1,2),(2,2),(1,3),(2,3)}} (max_ttl short of the target), path length <= highest ttl probed in the round, all executions with <= 2 (3 thorough) deviations, + changing paths: 14 cells x {{2->3, 2->4, 4->2, 4->3, 3->2 hops}} x first_ttl {{1,2}}, 5 rounds with the route changing after round 1 (<= 1 deviation, 2 thorough), same oracle on the snapshot at every publish + path length = true distance in every round in which the target's reply to the probe at its true distance was received (and, in the deviation-free execution, in every round at whose start the path had been unchanged for a whole round), 0 when nothing answers")));
+    rep.set("rule", json!(format!("synthetic: 14 round shapes (path lengths 1..4, answering/silent target, unknown hops, failed and re-issued probes; largest_ttl by the strategy's contract) x first_ttl {{1,2,5}}: ALL histories to depth {depth} on the real State, de-duplicated on (depth, getter results); after every round: hops() empty iff no path length, else consecutive ttl lowest-probed..=max path length with each probed hop carrying its ttl, target_hop/is_target/is_in_round at the latest round's length, no query panics (also on the empty state). real: 14 cells x 9 topologies (one with the socket failures the cell survives offered at every send/bind/connect) x first_ttl {{1,2,3}} x 3 rounds + 14 cells x 4 topologies x (first_ttl,max_ttl) in {{(1,1),(1,2),(2,2),(1,3),(2,3)}} (max_ttl short of the target), path length <= highest ttl probed in the round, all executions with <= 2 (3 thorough) deviations, + changing paths: 14 cells x {{2->3, 2->4, 4->2, 4->3, 3->2 hops}} x first_ttl {{1,2}}, 5 rounds with the route changing after round 1 (<= 1 deviation, 2 thorough), same oracle on the snapshot at every publish + path length = true distance in every round in which the target's reply to the probe at its true distance was received (and, in the deviation-free execution, in every round at whose start the path had been unchanged for a whole round), 0 when nothing answers")));
     for s in samples {
         rep.sample(s);
     }
